@@ -215,6 +215,14 @@ func registerTimeIntrinsics() {
 	intrinsics["time.Sleep"] = func(p *Path, th *Thread, fr *Frame, args []Value) Value {
 		n, _ := p.side["sleepCount"].(int)
 		p.side["sleepCount"] = n + 1
+		// the total time slept (a term: durations may be symbolic), for harnesses that bound a delay
+		if d, ok := args[0].(*Term); ok {
+			if tot, ok := p.side["sleepTotal"].(*Term); ok && tot.w == d.w {
+				p.side["sleepTotal"] = p.tt.Bin(OAdd, tot, d)
+			} else {
+				p.side["sleepTotal"] = d
+			}
+		}
 		p.sched.yield(th)
 		return nil
 	}
